@@ -182,6 +182,9 @@ def _operand(b, a):
     """operand of a first-order-logic node: nested constraint spec or raw expr"""
     if isinstance(a, dict) and a.get("kind") == "expr":
         return expr_to_z3(a["expr"], b)
+    if isinstance(a, dict) and a.get("kind") == "ref":
+        # the SAME constraint object that an earlier node of the Spec created (operands may be shared)
+        return b.constraints[a["id"]]
     return mk_constraint(b, a)
 
 
